@@ -2341,6 +2341,68 @@ func c10r9(c *Ctx, r *Report) {
 	r.floor("normalisations of negative bounds in Transform", n, 5)
 }
 
+// c03r9: the score of a single-character term is the best of ALL its occurrences (16 + twice the bonus of the
+// position). The first-row scan of FuzzyMatchV2 may stop early only at an occurrence nothing later can beat,
+// i.e. one that carries the largest bonus the active scheme hands out — which is the larger of the two
+// scheme-dependent boundary bonuses, not the constant threshold bonusBoundary (D59: it stopped at the first
+// occurrence with bonus >= bonusBoundary; `b` in "a-b b" scored 32 forward and 36 backward, and the line ranked
+// below "xa/b" (34)).
+func c03r9(c *Ctx, r *Report) {
+	l := c.L
+	r.rule("C03-R9", "A (an early exit of a maximising scan is taken only at the maximum)", "P1",
+		"in FuzzyMatchV2, every edge that leaves a loop under a `bonus >= X` test of a value read from the bonus matrix has an X computed from both algo.bonusBoundaryWhite and algo.bonusBoundaryDelimiter (the largest bonus of the scheme), not a constant",
+		"a single-character term is scored at its first boundary occurrence although a later one scores higher: the score is not the maximum of the recurrence and differs between the scan directions")
+	fn := l.Fn("algo", "FuzzyMatchV2")
+	gw, gd := l.Global("algo", "bonusBoundaryWhite"), l.Global("algo", "bonusBoundaryDelimiter")
+	gm := l.Global("algo", "bonusMatrix")
+	if fn == nil || gw == nil || gd == nil || gm == nil {
+		r.unest("anchors", token.NoPos, nil, "anchors FuzzyMatchV2 / bonusBoundaryWhite / bonusBoundaryDelimiter / bonusMatrix", "cannot resolve")
+		return
+	}
+	fromMatrix := func(v ssa.Value) bool {
+		for w := range backwardSlice(v, nil, nil) {
+			if w == ssa.Value(gm) {
+				return true
+			}
+			if ia, ok := w.(*ssa.IndexAddr); ok && addrRoot(ia) == ssa.Value(gm) {
+				return true
+			}
+		}
+		return false
+	}
+	n, exits := 0, 0
+	for _, lp := range natLoops(fn) {
+		var blocks []*ssa.BasicBlock
+		for bb := range lp.body {
+			blocks = append(blocks, bb)
+		}
+		sort.Slice(blocks, func(i, j int) bool { return blocks[i].Index < blocks[j].Index })
+		for _, bb := range blocks {
+			iff, ok := bb.Instrs[len(bb.Instrs)-1].(*ssa.If)
+			if !ok || (lp.body[bb.Succs[0]] && lp.body[bb.Succs[1]]) {
+				continue
+			}
+			exits++
+			b, ok := iff.Cond.(*ssa.BinOp)
+			if !ok || (b.Op != token.GEQ && b.Op != token.GTR) || !fromMatrix(b.X) {
+				continue
+			}
+			n++
+			hasW, hasD := false, false
+			for w := range backwardSlice(b.Y, func(*ssa.CallCommon) bool { return true }, nil) {
+				if u, ok := w.(*ssa.UnOp); ok && u.Op == token.MUL {
+					hasW = hasW || u.X == ssa.Value(gw)
+					hasD = hasD || u.X == ssa.Value(gd)
+				}
+			}
+			r.check(hasW && hasD, fmt.Sprintf("%s:early exit #%d on a bonus test", relName(fn), n), iff.Pos(), fn,
+				"taken only at the largest bonus of the scheme", "the scan stops at a bonus of "+describe(b.Y)+" or more although a later occurrence can carry a larger one")
+		}
+	}
+	r.floor("loop exits of FuzzyMatchV2 inspected", exits, 4)
+	r.floor("early exits on a bonus test", n, 1)
+}
+
 // round8 runs the round-8 rules of a property (own and shared) after the property's older rules.
 func round8(c *Ctx, r *Report, prop string) {
 	switch prop {
@@ -2353,6 +2415,7 @@ func round8(c *Ctx, r *Report, prop string) {
 		c05r14(c, r) // matching never crashes: one match at a time per scratch slab
 	case "C03":
 		c03r8(c, r)
+		c03r9(c, r)
 		c05r16(c, r) // the bonus of a character does not depend on what other workers are matching
 		c02r14(c, r) // the boundary bonuses stay within the range the score bound is computed from
 	case "C05":
